@@ -182,6 +182,18 @@ def run(tier):
     add_jobs(ruleset_groups(L - 1, 6), "rules+Cem-small", **small)
     add_jobs(big_groups(), "big", 1)
     add_jobs(classy_groups(160 if quick else 1200), "classy", 1)
+    # rules active "in the current start condition and line-start state": unqualified and '^' rules against %s / %x conditions, each
+    # specification on its own (the activation family of C05, round-6 seed C01-r6m1), and every spelling of a class with NUL in it,
+    # alone, so that NUL's equivalence class is the class's own (C04's family, round-6 seed C01-r6m3)
+    from .c05 import activation_jobs
+    acts = [j for j in activation_jobs(quick) if j["groups"][0].label.endswith("prefix-bol")]
+    for j in (acts[::4] if quick else acts):
+        jobs.append(dict(groups=j["groups"], tag="activation-" + j["tag"], knobs=knobs, flex_args=["-v"]))
+    from .c04 import spelled_class_groups
+    for g in spelled_class_groups(3):
+        solo = H.Group(g.conds, [g.rules[0]], g.enter, g.alphabet, g.maxlen, g.extras, label=g.label + " (alone)")
+        for fa in (["-v", "-8"], ["-v", "-8", "-Cf"], ["-v", "-8", "-C"]):
+            jobs.append(dict(groups=[solo], tag="nulclass%s-%s" % ("".join(fa[1:]), g.enter), knobs=knobs, flex_args=fa))
     if not quick:
         add_jobs(spelling_groups(spellings.setop_spellings(2), "OO"), "setop2", 60)
         g3 = [g for g in ast_groups(3, 5)]
